@@ -107,7 +107,7 @@ def run(tier, seed):
     # go to keys of ALL shards: 2.5 s later every one of them is on the device (the key universe of the history is the
     # probe keys only, hence ResultsMatch alone: the pinned key's own pending delete is not acknowledged)
     import seqengine as _sqp
-    _pv, _pn, _pst = _sqp.run_stories(PROP, fxv, rd, "pinstory", 1 if tier == "quick" else 4,
+    _pv, _pn, _pst = _sqp.run_stories(PROP, fxv, rd, "pinstory", 2 if tier == "quick" else 4,
                                       "accepted writes not on the device 2.5 s later while another key's retirement was waiting for a reader",
                                       inv=("ResultsMatch",))
     viol = viol + _pv
